@@ -94,7 +94,7 @@ class C08(CheckBase):
                    'either way (housekeeping grace)']
     expected_probes = ['subscribe', 'renew', 'getstatus', 'unsubscribe', 'unknown_id', 'expiry_crossed', 'commits',
                        'expected_deliveries', 'forbidden_checked', 'stop_end', 'clock_jump',
-                       'unsubscribe_during_delivery', 'commit_during_stop']
+                       'unsubscribe_during_delivery', 'commit_during_stop', 'end_answered_with_http_error']
     max_steps = 6_000_000
     max_virtual = 100000.0
 
@@ -156,7 +156,8 @@ class C08(CheckBase):
             elif k == 'clock_jump':
                 op['dt'] = rng.choice([-3600.0, -10.0, 5.0, 3600.0, 86400.0])
             ops.append(op)
-        stop = {'send_end': rng.random() < 0.75}
+        stop = {'send_end': rng.random() < 0.75,
+                'end_status': rng.choice([None, None, [500, rng.randrange(8)], [404, rng.randrange(8)]])}
         if rng.random() < 0.5:
             nsub = max(nsub, 2)  # (the two fresh subscriptions below sit behind different endpoints)
             # the application commits a transaction while stop_all() is ending the subscriptions (slow peers)
@@ -447,9 +448,19 @@ class C08(CheckBase):
             tx_thread.start()
             if early:
                 s.sleep(0.002)
+        if plan['stop'].get('end_status') and plan['stop']['send_end'] and tx_thread is None:
+            # one live subscriber answers its SubscriptionEnd (and anything else from now on) with an HTTP error
+            live = [sb for sb in subs if sb.accepted and sb.unsub_resp is None and modes.get(sb.k, ['ok'])[0] == 'ok']
+            if len(live) >= 2:
+                ctx.probe('end_answered_with_http_error')
+                modes[live[plan['stop']['end_status'][1] % len(live)].k] = ['status', plan['stop']['end_status'][0]]
         finished, exc = w.stop_provider_guarded(plan['stop']['send_end'], max_virtual=plan['world']['max_subscription_duration'] * 8 + 120)
         if tx_thread is not None and finished:
             tx_thread.join()
+        if finished and exc is not None:
+            ctx.violation('C08.end', f'stop_all-raised:{type(exc).__name__}',
+                          f'SdcProvider.stop_all() raised {exc!r}: the subscriptions that come later in its loop do not get '
+                          f'their SubscriptionEnd')
         if not finished:
             ctx.violation('C08.end', 'stop_all-does-not-return', 'SdcProvider.stop_all() did not return (live subscriptions '
                                                                  'never get their SubscriptionEnd):\n' + s.stacks(limit=10, only_forever=True)[:6000])
